@@ -99,16 +99,18 @@ typedef struct tbl { int tag; bool time, alloc, free_; } tbl;
 static void do_inject(const tbl* t, pv_rng* rng) {
     polyseed_dependency d; pv_world_table(&d, t->tag, t->time, t->alloc, t->free_);
     uint32_t how = pv_randn(rng, 3);
-    if (how == 0) {             /* struct on an mmap'd page that disappears right after the call */
+    if (how == 0) {             /* eight pointers at the very end of an mmap'd page that is followed by an inaccessible one; both disappear right after the call */
         long ps = sysconf(_SC_PAGESIZE);
-        polyseed_dependency* p = mmap(NULL, (size_t)ps, PROT_READ | PROT_WRITE, MAP_PRIVATE | MAP_ANONYMOUS, -1, 0);
-        if (p == MAP_FAILED) pv_fatal("C18: mmap");
-        *p = d; pv_api_inject(p); munmap(p, (size_t)ps);
+        uint8_t* m = mmap(NULL, (size_t)ps * 2, PROT_READ | PROT_WRITE, MAP_PRIVATE | MAP_ANONYMOUS, -1, 0);
+        if (m == MAP_FAILED) pv_fatal("C18: mmap");
+        mprotect(m + ps, (size_t)ps, PROT_NONE);
+        polyseed_dependency* p = (polyseed_dependency*)(m + ps - PV_DEP_ABI_BYTES);
+        memcpy(p, &d, PV_DEP_ABI_BYTES); pv_api_inject_raw(p); munmap(m, (size_t)ps * 2);
         PV_COUNT("inject.struct_unmapped_afterwards", 1);
-    } else {                    /* heap struct overwritten with trapping pointers, then freed */
-        polyseed_dependency* p = malloc(sizeof *p); *p = d;
-        pv_api_inject(p);
-        memset(p, 0x5a, sizeof *p); free(p);
+    } else {                    /* exact-size heap table overwritten with trapping pointers, then freed */
+        polyseed_dependency* p = malloc(PV_DEP_ABI_BYTES); memcpy(p, &d, PV_DEP_ABI_BYTES);
+        pv_api_inject_raw(p);
+        memset(p, 0x5a, PV_DEP_ABI_BYTES); free(p);
         PV_COUNT("inject.struct_overwritten_afterwards", 1);
     }
 }
